@@ -3,7 +3,7 @@
 import json, os
 HERE = os.path.dirname(os.path.abspath(__file__))
 BASELINE = ("cmake -S /repo -B /tmp/vf_baseline_build -G Ninja -DCMAKE_BUILD_TYPE=Release >/dev/null && "
-            "cmake --build /tmp/vf_baseline_build -j16 >/dev/null && "
+            "cmake --build /tmp/vf_baseline_build -j16 >/dev/null && cmake --build /tmp/vf_baseline_build --target testprograms -j16 >/dev/null && "
             "ctest --test-dir /tmp/vf_baseline_build -j8 --timeout 900; rc=$?; rm -rf /tmp/vf_baseline_build; exit $rc")
 # property -> (engine, technique, level text, level note, design ref)
 CHECKS = {
